@@ -45,7 +45,7 @@ TT = 'chainables.tree'
 
 
 def run(ctx: Ctx):
-  for r in (r1, r2, r3, r4, r5, r6, r8, r9, r10, r13, r17, r18, r19, r20):
+  for r in (r1, r2, r3, r4, r5, r6, r8, r9, r10, r13, r17, r18, r19, r20, r21):
     ctx.guard(r)
   from mlmverif.props import c03
   ctx.include('R-C02-7', 'every sliced aggregate sees every slice: the slices of'
@@ -551,6 +551,63 @@ def r20(ctx: Ctx):
   ctx.floor(rule, 2, n)
 
 
+def r21(ctx: Ctx):
+  rule = 'R-C02-21'
+  ctx.rule(rule, '"for every slice key it reports exactly the aggregate over the rows belonging to that slice ... no slice key is'
+           ' dropped", for a pipeline assembled from same-named parts: the fuse (`_chain_and_fuse`) concatenates the'
+           ' operator collections of the two parts. (a) Every collection it concatenates is one that `is_noop` looks at — a'
+           ' part that only contributes to a collection is_noop ignores (a slicer-only part) is discarded as "no-op"'
+           ' before the concatenation and its slice keys are never reported. (b) The fuse rejects what the declaring'
+           ' methods reject: like add_slice() it raises on a slice name that both parts declare (a guard over'
+           ' `slice_name`) — the stage would otherwise hold the slicer twice and feed every row twice to each slice'
+           ' aggregate')
+  ci = ctx.repo.cls(TR, 'TreeTransform')
+  fuse = ci.methods.get('_chain_and_fuse')
+  noop = ci.methods.get('is_noop')
+  if fuse is None or noop is None:
+    raise AnalysisError(f'{rule}: TreeTransform._chain_and_fuse / is_noop not found')
+  n = 0
+  merged = set()
+  for c in ast.walk(fuse.node):
+    if isinstance(c, ast.Call) and unparse(c.func).endswith('maybe_replace'):
+      for k in c.keywords:
+        if isinstance(k.value, ast.BinOp) and isinstance(k.value.op, ast.Add):
+          merged.add(k.arg)
+  if len(merged) < 2:
+    raise AnalysisError(f'{rule}: the fuse no longer concatenates the operator collections in one maybe_replace call')
+  looked = {x.attr for x in ast.walk(noop.node) if is_self_attr(x)}
+  uses_noop = any(is_self_attr(x) is False and isinstance(x, ast.Attribute) and x.attr == 'is_noop' for x in ast.walk(fuse.node))
+  for fld in sorted(merged):
+    n += 1
+    what = f'TreeTransform.is_noop looks at `{fld}`, which the fuse concatenates'
+    if fld in looked or fld.rstrip('_') in looked or not uses_noop:
+      ctx.ok(rule, noop, what, noop.node)
+    else:
+      ctx.fail(rule, noop, what,
+               f'the fuse concatenates `{fld}` of the two parts but discards a part whose `is_noop` is true, and is_noop does not'
+               f' look at `{fld}`: a part that only adds {fld} is dropped — its slice keys never appear in the report', node=noop.node)
+  # (b) duplicate slice names
+  n += 1
+  guards = []
+  for x in ast.walk(fuse.node):
+    if isinstance(x, ast.If) and any(isinstance(y, ast.Raise) for b in x.body for y in ast.walk(b)):
+      txt = unparse(x.test)
+      for nm in {y.id for y in ast.walk(x.test) if isinstance(y, ast.Name)}:
+        for a in ast.walk(fuse.node):
+          if isinstance(a, ast.Assign) and any(isinstance(t, ast.Name) and t.id == nm for t in a.targets):
+            txt += ' ' + unparse(a.value)
+      guards.append(txt)
+  what = 'TreeTransform._chain_and_fuse rejects a slice name declared by both parts'
+  if 'slicers' in merged and not any('slice_name' in g_ for g_ in guards):
+    ctx.fail(rule, fuse, what,
+             'the fuse concatenates the slicers of both parts without comparing their slice names (add_slice() raises'
+             ' "Duplicate slice name" for the same declaration on one transform): a slicer declared by both parts runs'
+             ' twice per batch and every slice aggregate counts each row twice', node=fuse.node)
+  else:
+    ctx.ok(rule, fuse, what, fuse.node)
+  ctx.floor(rule, 4, n)
+
+
 def r4(ctx: Ctx):
   rule = 'R-C02-4'
   ctx.rule(rule, 'mask application and reporting: masks are applied to the'
@@ -974,6 +1031,13 @@ from mlmverif.selfcheck import B, OK  # noqa: E402
 _T = 'chainables/transform.py'
 _F = 'chainables/tree_fns.py'
 VARIANTS = [
+    B('revert-noop-ignores-slicers', 'chainables/transform.py',
+      "        and not self.fns\n        and not self.slicers\n", "        and not self.fns\n", 'R-C02-21'),
+    B('revert-fuse-accepts-a-repeated-slicer', 'chainables/transform.py',
+      "    if dups := slice_names.intersection(s.slice_name for s in child.slicers):\n      raise ValueError(\n          f'Cannot chain a transform with duplicate slice names: {dups}.'\n      )\n", "", 'R-C02-21'),
+    OK('fuse-duplicate-slicer-test-as-loop', 'chainables/transform.py',
+       "    if dups := slice_names.intersection(s.slice_name for s in child.slicers):\n      raise ValueError(\n          f'Cannot chain a transform with duplicate slice names: {dups}.'\n      )\n",
+       "    for s in child.slicers:\n      if s.slice_name in slice_names:\n        raise ValueError(f'Cannot chain a transform with duplicate slice name: {s.slice_name}.')\n"),
     B('agg-alias-drops-disable-slicing', 'chainables/transform.py',
       '    """Alias for aggregate."""\n    return self.aggregate(\n        fn,\n        input_keys=input_keys,\n        output_keys=output_keys,\n        disable_slicing=disable_slicing,\n    )',
       '    """Alias for aggregate."""\n    return self.aggregate(fn, input_keys=input_keys, output_keys=output_keys)', 'R-C02-20'),
